@@ -90,6 +90,10 @@ pub trait SVDDecomposableMatrix<T: RealNumber>: BaseMatrix<T> {
 
         let (m, n) = U.shape();
 
+        // smallest magnitude whose reciprocal is safe to form; quantities below it are treated as zero.
+        // (An absolute threshold of machine epsilon would make the result depend on the scale of the input.)
+        let tiny = T::min_positive_value() / T::epsilon();
+
         let (mut l, mut nm) = (0usize, 0usize);
         let (mut anorm, mut g, mut scale) = (T::zero(), T::zero(), T::zero());
 
@@ -109,7 +113,7 @@ pub trait SVDDecomposableMatrix<T: RealNumber>: BaseMatrix<T> {
                     scale += U.get(k, i).abs();
                 }
 
-                if scale.abs() > T::epsilon() {
+                if scale.abs() > tiny {
                     for k in i..m {
                         U.div_element_mut(k, i, scale);
                         s += U.get(k, i) * U.get(k, i);
@@ -145,7 +149,7 @@ pub trait SVDDecomposableMatrix<T: RealNumber>: BaseMatrix<T> {
                     scale += U.get(i, k).abs();
                 }
 
-                if scale.abs() > T::epsilon() {
+                if scale.abs() > tiny {
                     for k in l - 1..n {
                         U.div_element_mut(i, k, scale);
                         s += U.get(i, k) * U.get(i, k);
@@ -213,7 +217,7 @@ pub trait SVDDecomposableMatrix<T: RealNumber>: BaseMatrix<T> {
                 U.set(i, j, T::zero());
             }
 
-            if g.abs() > T::epsilon() {
+            if g.abs() > tiny {
                 g = T::one() / g;
                 for j in l..n {
                     let mut s = T::zero();
@@ -327,7 +331,7 @@ pub trait SVDDecomposableMatrix<T: RealNumber>: BaseMatrix<T> {
 
                     z = f.hypot(h);
                     w[j] = z;
-                    if z.abs() > T::epsilon() {
+                    if z.abs() > tiny {
                         z = T::one() / z;
                         c = f * z;
                         s = h * z;
